@@ -458,6 +458,18 @@ example : Sample.refusingSetter.refuseOK = true ∧
 /-- … and a setter whose guard swallows the call silently is rejected. -/
 example : Sample.swallowingSetter.refuseOK = false := by decide
 
+/-- **The error value reaches contract code as a Lua error.**  Every C wrapper that calls one of the refusing
+callbacks tests the returned value (`r != NULL`, `r.r1 != NULL`, for deploy `r.r0 < 0`) and the guarded statement
+raises a Lua error (`luaL_throwerror`); every refusing callback has such a wrapper. -/
+theorem c_wrappers_raise_on_error :
+    Gen.HostApi.cErrChecks.all (fun r =>
+      r.2.2.2 == "raise" && ["r != NULL", "r.r1 != NULL", "r.r0 < 0", "(r = call) != NULL"].contains r.2.2.1) = true ∧
+    Gen.HostApi.refusingCallbacks.all (fun n => Gen.HostApi.cErrChecks.any (·.1 == n)) = true ∧
+    Gen.HostApi.refusingCallbacks =
+      ["luaSetDB", "luaDelDB", "luaCallContract", "luaSendAmount", "luaDeployContract", "luaEvent", "luaGovernance",
+       "LuaGetDbHandleSnap"] := by
+  refine ⟨by decide +kernel, by decide +kernel, rfl⟩
+
 /-! ## Round 3 — "the state root is unchanged" -/
 
 /-- An interpretation of the sink events over an arbitrary state type: each event is an operation of the abstract
